@@ -554,16 +554,17 @@ def run(check):
                     check.count(k, v)
             agree = ma == ra
             bad = judge(check, c, ra_raw, lexok.get(ci, {})) if "ok" in ra_raw else []
-            reported = lang in reported_langs
+            # one failing input and one broken-correspondence report per language; the latter never hides the former
+            reported = (lang, "failing") in reported_langs
             if bad and not reported:
                 name, text, rej, why = bad[0]
-                reported_langs.add(lang)
+                reported_langs.add((lang, "failing"))
                 check.violation("%s output is not well-formed: %s; %s" % (lang, rej.describe(), why),
                                 case={"lang": lang, "config": c["cfg"], "source": c["texts"], "request": c["r"]},
                                 impl={"file": name, "text": text}, model=ma if not agree else "(agrees with the implementation)",
                                 failing_input=True)
-            elif not agree and not bad and not reported:
-                reported_langs.add(lang)
+            elif not agree and not bad and (lang, "weak") not in reported_langs and not reported:
+                reported_langs.add((lang, "weak"))
                 diff = None
                 if "ok" in ma and "ok" in ra:
                     for k in ra["ok"]:
